@@ -165,7 +165,9 @@ def main(tier, seed, only=None):
                    symbolic="what an earlier run left in the shared settings (A and B), and the current run's population, global population and nutrition requirements",
                    assumptions=["current inputs in generous positive ranges"], stubs=STUBS[:3] + ["scenarios_loader.check_all_set -> no-op", "the real compute_parameters_first_round is cut after init_cs_params"],
                    outside=["equality of whole results (headline, monthly series, herd trajectories) across orders of whole runs: pandas tables re-read from disk, PuLP/CBC and the herd simulation are not encodable",
-                            "module-level objects other than Food.conversions (option dictionaries are covered by C13's 'caller's dictionary untouched')"])]
+                            "module-level objects other than Food.conversions and the herd table (option dictionaries are covered by C13's 'caller's dictionary untouched')"])]
+    from harness import history as H
+    groups.append(dict(H.GROUP, cases=H.cases(thorough, seed)))
     vlib.run_groups(rep, MOD, groups, seed, only)
     return rep.finish()
 
